@@ -758,14 +758,20 @@ def op_checksig_schnorr(stack, tx_obj, input_index):
     pubkey = stack.pop()
     signature = stack.pop()
     point = S256Point.parse_xonly(pubkey)
-    if len(signature) == 65:
-        hash_type = signature[-1]
-        signature = signature[:-1]
-    elif len(signature) == 0:
+    if len(signature) == 0:
         stack.append(encode_num(0))
         return True
-    else:
+    # BIP341 signature validation rules: 64 bytes mean SIGHASH_DEFAULT,
+    # 65 bytes carry a defined, non-zero hash type, anything else fails
+    elif len(signature) == 64:
         hash_type = 0
+    elif len(signature) == 65:
+        hash_type = signature[-1]
+        if hash_type not in (0x01, 0x02, 0x03, 0x81, 0x82, 0x83):
+            return False
+        signature = signature[:-1]
+    else:
+        return False
     sig = SchnorrSignature.parse(signature)
     msg = tx_obj.sig_hash(input_index, hash_type)
     if point.verify_schnorr(msg, sig):
@@ -787,14 +793,19 @@ def op_checksigadd_schnorr(stack, tx_obj, input_index):
     n = decode_num(stack.pop())
     signature = stack.pop()
     point = S256Point.parse_xonly(pubkey)
-    if len(signature) == 65:
-        hash_type = signature[-1]
-        signature = signature[:-1]
-    elif len(signature) == 0:
+    if len(signature) == 0:
         stack.append(encode_num(n))
         return True
-    else:
+    # BIP341 signature validation rules (see op_checksig_schnorr)
+    elif len(signature) == 64:
         hash_type = 0
+    elif len(signature) == 65:
+        hash_type = signature[-1]
+        if hash_type not in (0x01, 0x02, 0x03, 0x81, 0x82, 0x83):
+            return False
+        signature = signature[:-1]
+    else:
+        return False
     sig = SchnorrSignature.parse(signature)
     msg = tx_obj.sig_hash(input_index, hash_type)
     if point.verify_schnorr(msg, sig):
